@@ -130,6 +130,12 @@ func coRun(dest, src, via string) (got string) {
 		return val
 	}
 	base, opt, _ := strings.Cut(dest, "+")
+	if strings.HasPrefix(dest, "time") {
+		// layouts without a zone denote UTC instants whatever the zone of the process
+		oldLocal := time.Local
+		time.Local = time.FixedZone("verif+2", 2*3600)
+		defer func() { time.Local = oldLocal }()
+	}
 	// global override: installed before the schema is constructed, restored right after
 	if opt == "global:plus1000" {
 		old := conf.Coercers.Int
